@@ -139,11 +139,13 @@ PROPERTY_RULES: Dict[str, List[Scoped]] = {
         _r("STYLE-DEFINED"), _r("MEASURE-LOCKSTEP"), _r("IDENTITY-KEYS"), _r("SOLVER-STATELESS", S_RENDER),
         _r("NO-PRUNED-TRAVERSAL", S_RENDER), _r("LOSS-CHAIN"), _r("SIGMA-DRAW"), _r("LAYOUT-SIDES"),
         _r("NO-TOPOLOGY-WRITE"),
+        _r("PLACED-IN-SPECIES"),
     ],
     "C14": [
         _r("SIGMA-INVARIANCE"), _r("SIGMA-CLOSURE"), _r("SOLVER-STATELESS", ("render.layout:", "utils.geometry:")),
         _r("LOSS-CHAIN"), _r("LAYOUT-SIDES"),
         _r("NO-TOPOLOGY-WRITE"),
+        _r("FINITE-ARITH"),
     ],
     "C15": [
         _r("TEMPLATE-BRACES"), _r("TEMPLATE-TERMINATED"), _r("PICTURE-ENV"), _r("COLOR-INTERN"),
@@ -151,6 +153,7 @@ PROPERTY_RULES: Dict[str, List[Scoped]] = {
         _r("COLOR-SOURCE"), _r("WRAP-DISCIPLINE"),
         _r("COLOR-INHERIT"),
         _r("ORDER-PRESERVED"), _r("SOLVER-STATELESS", ("utils.text:", "utils.tex:", "render.", "model.synteny:")), _r("MEMO-KEY"),
+        _r("LABEL-SOURCE"),
     ],
     "C16": [
         _r("UPDATE-PAIRING"), _r("RETENTION-GUARDS"), _r("POLARITY"), _r("PROXY-NONE"), _r("COMBINE-PRODUCT"),
@@ -169,6 +172,7 @@ PROPERTY_RULES: Dict[str, List[Scoped]] = {
         _r("RESTORE-PAIRING"), _r("FRESH-STARTS"), _r("INDEG-INIT"), _r("GRAPH-KEYS"), _r("READONLY-GRAPH"),
         _r("EMPTY-RESULT-GUARD"),
         _r("SOLVER-STATELESS", ("utils.toposort:",)), _r("MEMO-KEY", ("utils.toposort:",)),
+        _r("KAHN-LOOP"),
     ],
     "C20": [
         _r("COPY-BEFORE-MUTATE"),
@@ -429,8 +433,9 @@ PROPERTY_INFO: Dict[str, Dict] = {
             "fork corners, leaf outlines, leaf and loss markers and path operators of the horizontal drawing are the transposed ones of the vertical drawing, as symbolic points (SIGMA-DRAW)",
             "branch.left / branch.right are the lineages below the first / second child species (speciation) resp. the conserved / transferred child (transfer), over every configuration of the relational model (LAYOUT-SIDES)",
             "the trees are not rewired while being laid out (NO-TOPOLOGY-WRITE)",
+            "each node's branch is stored in the state of the species it is mapped to, and nowhere else; loss nodes in the species the walk is at (PLACED-IN-SPECIES)",
         ],
-        "not_decided": ["that each node is placed in the species it is mapped to (run-time filter)", "absolute marker coordinates"],
+        "not_decided": ["absolute marker coordinates"],
     },
     "C14": {
         "explanation": "Static analysis (ast transformation): the transposition sigma is applied to the syntax "
@@ -441,8 +446,9 @@ PROPERTY_INFO: Dict[str, Dict] = {
             "computing twice gives the same result: no state kept (SOLVER-STATELESS)",
             "every level of a multi-level loss references the node created just before, and the sides of a speciation branch are the lineages that live in the matching child species (LOSS-CHAIN, LAYOUT-SIDES) - necessary for 'every anchor referenced exists'",
             "the input trees are not rewired by a layout computation (NO-TOPOLOGY-WRITE)",
+            "coordinates are polynomial / max / min expressions of the sizes and parameters: no division by a variable, no inf, no max() of a possibly empty collection (FINITE-ARITH) - a sufficient condition of 'all coordinates are finite'",
         ],
-        "not_decided": ["finiteness, non-overlap, containment, anchor existence in general"],
+        "not_decided": ["non-overlap, containment, anchor existence in general (inequalities between sums of runtime sizes)"],
     },
     "C15": {
         "explanation": "Static analysis (ast): skeletons of all TeX templates (brace balance, termination), "
@@ -457,6 +463,7 @@ PROPERTY_INFO: Dict[str, Dict] = {
             "colour = nearest coloured ancestor: parent read in pre-order or descendants painted in post-order, no scalar carried across siblings, never read from a virtual node (COLOR-INHERIT, PREORDER-STATE, COLOR-SOURCE)",
             "wrapped labels: words never split, width only narrowed, candidate accepted only with the greedy line count (WRAP-DISCIPLINE)",
             "ordered syntenies are not re-sorted on the way to a label (ORDER-PRESERVED); no wrap / colour state survives a call (SOLVER-STATELESS, MEMO-KEY)",
+            "a label is built from the synteny of the very node it is attached to (LABEL-SOURCE)",
         ],
         "not_decided": ["behaviour of textwrap itself", "that a label lists exactly the node's families"],
         "assumptions": ["names and family names contain no braces (the property's quantifier)"],
@@ -510,8 +517,8 @@ PROPERTY_INFO: Dict[str, Dict] = {
         "explanation": "Static analysis (ast): pairing of in-degree decrements and restores around the recursive "
         "call, freshness of the per-iteration start set, edge counting and cycle rejection, evidence required "
         "for the 'no ordering' answer, read-only graph, totality of the precedence graph.",
-        "decided": ["RESTORE-PAIRING, FRESH-STARTS, INDEG-INIT, GRAPH-KEYS, READONLY-GRAPH, EMPTY-RESULT-GUARD", "no result cache between calls (SOLVER-STATELESS, MEMO-KEY)"],
-        "not_decided": ["completeness / uniqueness of the enumeration as such", "Kahn's loop"],
+        "decided": ["RESTORE-PAIRING, FRESH-STARTS, INDEG-INIT, GRAPH-KEYS, READONLY-GRAPH, EMPTY-RESULT-GUARD", "no result cache between calls (SOLVER-STATELESS, MEMO-KEY)", "the single-ordering routine has the shape of Kahn's algorithm: pop, emit once, decrement each successor once, queue at zero (KAHN-LOOP)"],
+        "not_decided": ["completeness / uniqueness of the enumeration as such (induction over the backtracking)"],
     },
     "C20": {
         "explanation": "Static analysis (ast): branch isolation of the two-block enumeration (deep copies) and of "
